@@ -533,6 +533,165 @@ def run_round5(chk, rng, judge, mult, emit):
                 if copy and (any(shared) or cshared or not same):
                     chk.finding("tensorly.tucker_tensor.tucker_mode_dot", inp, "tucker_mode_dot(copy=True) touched the caller's list or returned memory shared with the caller's", "tucker_mode_dot_alias")
 
+    # --- (F) round 6: all-fresh transforms and object methods on the heap, item assignment (stale shape attribute)
+    from tensorly.cp_tensor import cp_flip_sign, cp_normalize, cp_permute_factors
+
+    def observe(arrs, facs, ls, res_objs):
+        res = [np.asarray(a) for o in res_objs for a in ([o[0]] + list(o[1]))]
+        shared = [any(np.shares_memory(a, r) for r in res) for a in arrs]
+        same = len(facs) == len(ls) and all(f is arrs[i] for f, i in zip(facs, ls))
+        return shared, same
+
+    def qobj(st, out):
+        if st != "ok":
+            return "Err"
+        try:
+            fs_ = [np.asarray(f, dtype=float) for f in out[1]]
+            if any(f.ndim != 2 for f in fs_) or not np.all(np.isfinite(np.asarray(out[0], dtype=float))):
+                raise ValueError
+            return f"(Ok ({C.nat_list([int(d) for d in out.shape])}, ({qrow(np.asarray(out[0], dtype=float))}, {qmats(fs_)})))"
+        except Exception:  # noqa
+            return "(Ok ([99999]%nat, ((@nil Q), (@nil (list (list Q))))))"
+
+    def qmats1(arrs):
+        return "[" + "; ".join(qmat(np.asarray(a, dtype=float).reshape(1, -1) if np.asarray(a).ndim == 1 else np.asarray(a, dtype=float)) for a in arrs) + "]"
+
+    for it in range(24 * mult):
+        N = rng.randint(1, 4)
+        w, fs, feat = H.gen_cp(rng, N=N, maxdim=3)
+        pattern = list(range(N))
+        if N >= 2 and it % 2 == 0:
+            i, j = rng.sample(range(N), 2); pattern[j] = pattern[i]
+        w_none = rng.random() < 0.25
+        table = ([] if w_none else [w]) + fs
+        off = 0 if w_none else 1
+        ls = [off + p_ for p_ in pattern]
+        is_class = rng.random() < 0.5
+        mode = rng.randrange(N + (1 if rng.random() < 0.1 else 0))
+        inp = {"table": table, "ls": ls, "w_idx": None if w_none else 0, "is_class": is_class}
+        st0, built = call(build_heap_operand, inp)
+        if st0 == "ok":
+            arrs, facs, wv, operand = built
+            w_idx = inp["w_idx"]
+            if is_class and w_none:
+                arrs.append(operand.weights); w_idx = len(arrs) - 1
+            before = [a.copy() for a in arrs]
+            st, out = call(cp_flip_sign, operand, mode, tl.sum)
+            shared, same = observe(arrs, facs, ls, [out] if st == "ok" else [])
+            wl = "None" if w_idx is None else f"(Some {w_idx}%nat)"
+            emit(lambda: f"ZHeapFlip {zmats(before)} {C.nat_list(ls)} {wl} {C.boolc(is_class)} {mode}%nat {H.zobj_res(st, out)} "
+                         f"{zmats(arrs)} [{'; '.join(C.boolc(b) for b in shared)}] {C.boolc(same)}", ("cp_flip_sign", "heap", tuple(ls), is_class, mode))
+            chk.count(key=("cp_flip_sign-heap", tuple(pattern), is_class, mode), nontrivial=len(set(ls)) < len(ls))
+            if st == "ok" and (not H.same_arrays(arrs, before) or any(shared) or not same):
+                chk.finding("tensorly.cp_tensor.cp_flip_sign", dict(inp, mode=mode), "cp_flip_sign touched the caller's arrays / list or returned memory shared with them", "cp_flip_sign_heap")
+        # cp_normalize / CPTensor.normalize(inplace) on quarter-integer data
+        wq, fsq, _ = H.gen_cp(rng, N=N, float_=True, maxdim=3)
+        tableq = ([] if w_none else [wq]) + fsq
+        meth = rng.choice([0, 0, 1, 2])
+        cls_q = True if meth else is_class
+        inpq = {"table": tableq, "ls": ls, "w_idx": None if w_none else 0, "is_class": cls_q}
+        st0, built = call(build_heap_operand, inpq)
+        if st0 == "ok":
+            arrs, facs, wv, operand = built
+            w_idx = inpq["w_idx"]
+            if cls_q and w_none:
+                arrs.append(operand.weights); w_idx = len(arrs) - 1
+            before = [a.copy() for a in arrs]
+            w_eff = np.ones(fsq[0].shape[1]) if w_none else wq
+            fs_eff = [tableq[i_] for i_ in ls]
+            inter = [fs_eff[0] * w_eff] + list(fs_eff[1:])
+            tape = "[" + "; ".join(qrow(np.sqrt(np.sum(a * a, axis=0))) for a in inter) + "]"
+            if meth == 0:
+                st, out = call(cp_normalize, operand)
+            else:
+                st, out = call(lambda: operand.normalize(inplace=(meth == 1)))
+            self_res = st == "ok" and out is operand
+            shared, same = observe(arrs, facs, ls, [out] if st == "ok" else [])
+            wl = "None" if w_idx is None else f"(Some {w_idx}%nat)"
+            emit(lambda: f"QHeapNorm {tape} {qmats1(before)} {C.nat_list(ls)} {wl} {C.boolc(cls_q)} {meth}%nat {qobj(st, out)} "
+                         f"{qmats1(arrs)} [{'; '.join(C.boolc(b) for b in shared)}] {C.boolc(same)} {C.boolc(self_res)}",
+                 ("cp_normalize", "heap", tuple(ls), cls_q, meth))
+            chk.count(key=("cp_normalize-heap", tuple(pattern), cls_q, meth), nontrivial=True)
+            chk.hist("normalize_form", {0: "function", 1: "method inplace=True", 2: "method inplace=False"}[meth])
+            if st == "ok":
+                d0 = H.dense_cp(w_eff, fs_eff)
+                if not H.close(H.dense_cp(np.asarray(out[0]), [np.asarray(f) for f in out[1]]), d0):
+                    chk.finding("tensorly.cp_tensor.CPTensor.normalize" if meth else "tensorly.cp_tensor.cp_normalize", dict(inpq, meth=meth), "normalisation changed the represented tensor", "cp_normalize_heap")
+                if not H.same_arrays(arrs, before) or any(shared) or not same:
+                    chk.finding("tensorly.cp_tensor.CPTensor.normalize" if meth else "tensorly.cp_tensor.cp_normalize", dict(inpq, meth=meth), "normalisation overwrote an array of the caller / returned memory shared with the caller's", "cp_normalize_heap")
+                if meth and (self_res != (meth == 1)):
+                    chk.finding("tensorly.cp_tensor.CPTensor.normalize", dict(inpq, meth=meth), "normalize(inplace=True) must return the tensor itself, normalize(inplace=False) a copy", "cp_normalize_heap")
+                if meth == 2 and not H.close(H.dense_cp(np.asarray(operand[0]), [np.asarray(f) for f in operand[1]]), d0):
+                    chk.finding("tensorly.cp_tensor.CPTensor.normalize", dict(inpq, meth=meth), "normalize(inplace=False) changed the operand", "cp_normalize_heap")
+        # item assignment on a CPTensor, then a mode product: the shape attribute is not refreshed (C03's known finding owns the defect;
+        # here the model must follow the code: cached-shape test AND real row count)
+        if N >= 1:
+            kind = rng.choice(["same", "rows", "rows", "fewer", "more"])
+            newfs = [H.rint(rng, -3, 3, f.shape) for f in fs]
+            kbad = rng.randrange(N)
+            if kind == "rows":
+                newfs[kbad] = H.rint(rng, -3, 3, (fs[kbad].shape[0] + rng.choice([1, 2]), fs[kbad].shape[1]))
+            elif kind == "fewer" and N >= 2:
+                newfs = newfs[:-1]
+            elif kind == "more":
+                newfs = newfs + [H.rint(rng, -3, 3, (2, fs[0].shape[1]))]
+            arrs = [w.copy()] + cps(fs) + cps(newfs)
+            obj_ = CPTensor((arrs[0], [arrs[1 + i_] for i_ in range(N)]))
+            newlist = [arrs[1 + N + i_] for i_ in range(len(newfs))]
+            obj_[1] = newlist
+            for _ in range(2):
+                mode2 = rng.randrange(max(len(newfs), N))
+                rows_new = newfs[mode2].shape[0] if mode2 < len(newfs) else 2
+                rows_old = fs[mode2].shape[0] if mode2 < N else 2
+                d = rng.choice([rows_new, rows_old])
+                kind2 = rng.choice(["mat", "veck"] + (["vec"] if len(newfs) >= 2 else []))
+                x = H.gen_operand(rng, d, "vec" if kind2 == "veck" else kind2)
+                kd = kind2 == "veck"
+                copy = True                                            # copy=False would update obj_ and spoil the second probe
+                st, out = call(cp_mode_dot, obj_, x.copy(), mode2, keep_dim=kd, copy=copy)
+                xl = f"(OpMat {zmat(x)})" if x.ndim == 2 else f"(OpVec {zrow(x)})"
+                emit(lambda: f"ZHeapStale {C.boolc(inplace)} {zmats(arrs)} {C.nat_list(list(range(1, N + 1)))} {C.nat_list(list(range(N + 1, N + 1 + len(newfs))))} 0%nat "
+                             f"{C.boolc(copy)} {xl} {mode2}%nat {C.boolc(kd)} {H.zobj_res(st, out)}", ("cp_mode_dot", "after-setitem", kind, mode2, kind2, d == rows_new, d == rows_old))
+                chk.count(key=("cp_mode_dot-setitem", kind, kind2, d == rows_new, d == rows_old), nontrivial=kind != "same")
+                chk.hist("setitem", kind + ":" + st)
+                if st == "ok" and mode2 < len(newfs):
+                    expd = H.dense_mode_dot(H.dense_cp(w, newfs), x, mode2, kd) if d == rows_new else None
+                    if expd is None or not H.close(H.dense_cp(np.asarray(out[0]), [np.asarray(f) for f in out[1]]), expd, exact=True):
+                        chk.finding("tensorly.cp_tensor.cp_mode_dot", {"w": w, "fs": newfs, "x": x, "mode": mode2, "keep_dim": kd, "copy": copy, "old_shape": [int(f.shape[0]) for f in fs]},
+                                    "cp_mode_dot on a CPTensor whose factors were replaced by item assignment returned a tensor that is not the mode product of its contents", "cp_mode_dot_setitem")
+
+    # cp_permute_factors on the heap: the permuted copy is all fresh, the operand (incl. aliased factors) untouched
+    for it in range(12 * mult):
+        R = rng.randint(1, 3); N = rng.randint(1, 3)
+        w, fs, feat = H.gen_cp(rng, N=N, R=R, feat=rng.choice(["none", "neg_w", "pos"]))
+        fs = [f.astype(np.float64) for f in fs]; w = w.astype(np.float64)
+        for f in fs:
+            for r_ in range(R):
+                if not np.any(f[:, r_]):
+                    f[0, r_] = 1.0
+        w[w == 0] = 1.0
+        pattern = list(range(N))
+        if N >= 2 and it % 2 == 0 and fs[0].shape == fs[1].shape:
+            pattern[1] = 0
+        ls = [1 + p_ for p_ in pattern]
+        arrs = [w.copy()] + cps(fs)
+        facs = [arrs[i_] for i_ in ls]
+        before = [a.copy() for a in arrs]
+        p0 = list(range(R)); rng.shuffle(p0)
+        ref = CPTensor((np.ones(R), [facs[k_][:, p0].copy() * rng.choice([1.0, -1.0, 2.0]) for k_ in range(N)]))
+        t = CPTensor((arrs[0], facs))
+        st, out = call(cp_permute_factors, ref, t)
+        if st != "ok":
+            continue
+        pt, perms = out
+        perm = [int(x_) for x_ in perms[0]]
+        shared, same = observe(arrs, facs, ls, [pt])
+        emit(lambda: f"ZHeapPerm {C.nat_list(perm)} {zmats(before)} {C.nat_list(ls)} 0%nat {H.zobj_res('ok', pt)} "
+                     f"{zmats(arrs)} [{'; '.join(C.boolc(b) for b in shared)}] {C.boolc(same)}", ("cp_permute_factors", "heap", tuple(ls), tuple(perm)))
+        chk.count(key=("cp_permute-heap", tuple(pattern), tuple(perm)), nontrivial=R > 1)
+        if not H.same_arrays(arrs, before) or any(shared) or not same:
+            chk.finding("tensorly.cp_tensor.cp_permute_factors", {"w": w, "fs": fs, "ls": ls}, "cp_permute_factors touched its operand / returned memory shared with it", "cp_permute_heap")
+
     # --- (E) the documented meaning of max_rank
     for it in range(12 * mult):
         K = rng.randint(1, 3)
